@@ -105,3 +105,9 @@ Definition stored (o : obs) (T : ftype) : Z :=
   end.
 
 Definition is_request (o : op) : bool := match o with PUB _ _ => false | _ => true end.
+
+(* ---------- fault stream (outside the property's quantifier, judged on its clause "STOP closes all files"):
+   after a STOP issued while the experiment-state file cannot be written, whatever the reply, no channel holds
+   a writer, no channel data file is open and nothing is stored any more ---------- *)
+Definition fault_stop_ok (f : faultobs) : bool :=
+  forallb no_writer (fo_writers f) && (fo_open f =? 0) && negb (fo_stored f).
